@@ -229,8 +229,14 @@ class Planner:
     def lit(self):
         r = self.rng
         v = r.choice([0, 1, 2, -1, 3, 0.5, 2.0, -1.5, 10, 1e-3, 7, 100])
-        if r.random() < 0.04:
+        q = r.random()
+        if q < 0.04:
             v = ["c", 1.5, -0.5]
+        elif q < 0.14:
+            # computed floats whose shortest repr needs 16-17 significant digits
+            v = r.choice([1 / 3, 0.1 + 0.2, 3.141592653589793, 2.718281828459045, 1 + 2**-52, 1e-17 / 3, 123456789.12345679, -2 / 3])
+        elif q < 0.16:
+            v = ["c", 1 / 3, 0.1 + 0.2]
         return self.call("ufl.as_ufl", v)
 
     def terminal(self, M):
@@ -903,6 +909,12 @@ class Planner:
         k = r.randrange(10)
         if k <= 5:
             return self.derive(f, rank, M, keep_failed=kf)
+        if k == 6 and r.random() < 0.3:
+            # the public signature function with the numbering of a larger form
+            others = [x[0] for x in self.forms if x[0] != f]
+            if others:
+                self.call("sim.ops.signature_in_context", self.ref(f), self.ref(r.choice(others)), keep_failed=kf, kind="result")
+            return None
         if k == 6:
             self.emit(["obs", None, r.choice(["sig", "hash", "args", "coeffs", "consts", "meta", "repr", "str", "rank"]), f])
             return None
@@ -1243,7 +1255,7 @@ class Planner:
                         pairs.append([gq, t, "term:" + what])
         # literals
         lits = []
-        for v in [0, 1, 1.0, ["c", 1.0, 0.0], 2, 2.0, -1, 0.0, ["c", 0.0, 0.0], 0.5, ["c", 0.5, 1.0]]:
+        for v in [0, 1, 1.0, ["c", 1.0, 0.0], 2, 2.0, -1, 0.0, ["c", 0.0, 0.0], 0.5, ["c", 0.5, 1.0], 0.1 + 0.2, 0.3, 1 / 3, 0.3333333333333333, 0.333333333333333, ["c", 1 / 3, 0.0]]:
             t = self.call("ufl.as_ufl", v)
             if t is not None:
                 lits.append(t)
@@ -1258,7 +1270,7 @@ class Planner:
                     lits.append(t)
         for i in range(len(lits)):
             for j in range(i + 1, len(lits)):
-                if r.random() < 0.3:
+                if r.random() < 0.12:
                     pairs.append([lits[i], lits[j], "lit"])
         return nd, pairs, lits
 
